@@ -246,7 +246,7 @@ def _check_case(case, res, count=True):
                 res.count('illformed-raised')
             continue
         return ('langgraph.illformed:%s-accepted' % kind, 'ill-formed language (%s) was accepted without any error' % kind)
-    if case.get('amodel') is not None:
+    if case.get('amodel') is not None and not lang.same_signature_groups():
         try:
             built = Built(case, attackers=False)
             graph = built.attack_graph()
@@ -278,6 +278,9 @@ def run(rng, res, tier, shard, nshards):
     while budget.more():
         r = rng.random()
         lcfg = Cfg(inherit_bias=0.75, transitive_nonfield=0.3) if r < 0.5 else Cfg(max_assets=8, max_assocs=8)
+        if rng.random() < 0.15:
+            lcfg.same_sig_dups = 0.6       # same name AND same end types, different fields (F26)
+            lcfg.dup_assoc_names = 0.5
         case = gen_case(rng, lcfg, MCfg(), corelang_share=0.03)
         bad = []
         if case['source'] == 'generated':
